@@ -300,30 +300,76 @@ pub(crate) fn case_update<C: Ctx>(dr: usize) {
     vassert!(c.off() == 0, "update: offset reset to 0");
 }
 
-/// process == copy + process_mut; small lengths (the step above covers the rest)
+/// recorder for process_mut when the subject is process(): address, length and the first bytes of the buffer at call time
+pub(crate) static mut PMN: usize = 0;
+pub(crate) static mut PM_PTR: usize = 0;
+pub(crate) static mut PM_LEN: usize = 0;
+pub(crate) static mut PM_HEAD: [u8; 8] = [0; 8];
+#[cfg(kani)]
+pub(crate) fn pm_note(data: &mut [u8]) {
+    unsafe {
+        PMN += 1;
+        PM_PTR = data.as_ptr() as usize;
+        PM_LEN = data.len();
+        let mut i = 0;
+        while i < 8 {
+            if i < data.len() {
+                PM_HEAD[i] = data[i];
+                data[i] = !data[i]; // visible effect: the caller must hand back what process_mut produced
+            }
+            i += 1;
+        }
+    }
+}
+#[cfg(kani)]
+pub(crate) fn chacha_pm_rec<const ROUNDS: usize>(_c: &mut ChaCha<ROUNDS>, data: &mut [u8]) {
+    pm_note(data)
+}
+#[cfg(kani)]
+pub(crate) fn xchacha_pm_rec<const ROUNDS: usize>(_c: &mut XChaCha<ROUNDS>, data: &mut [u8]) {
+    pm_note(data)
+}
+#[cfg(kani)]
+pub(crate) fn chachaorig_pm_rec<const ROUNDS: usize>(_c: &mut ChaChaOriginal<ROUNDS>, data: &mut [u8]) {
+    pm_note(data)
+}
+
+/// process(input, output) == copy input to output, then process_mut(output).  Under Kani process_mut is recorded (its own
+/// semantics is the step lemma); natively both paths run for real and are compared.
 pub(crate) fn case_process_eq<C: Ctx>() {
     let w: [u32; 16] = any();
     let cached: [u8; 64] = any();
     let offset: usize = any();
     assume(offset <= 64);
-    let data = Bytes::<3>::any();
+    let data = Bytes::<6>::any();
+    let len = data.len;
+    vcover!(len == 6, "longest");
+    vcover!(len == 0, "empty");
     let mut a = C::mk(w, cached, offset);
-    let mut b = a.clone();
-    let mut out = [0u8; 3];
-    a.p(data.get(), &mut out[..data.len]);
-    let mut buf = data.buf;
-    b.pm(&mut buf[..data.len]);
-    vcover!(data.len == 3 && offset == 62, "crosses a block");
-    let mut i = 0;
-    while i < 3 {
-        if i < data.len {
-            vassert!(out[i] == buf[i], "process == process_mut on a copy");
-        } else {
-            vassert!(out[i] == 0, "process: output beyond the slice untouched");
+    let mut out = [0x5au8; 6];
+    a.p(data.get(), &mut out[..len]);
+    #[cfg(kani)]
+    unsafe {
+        vassert!(PMN == 1 && PM_PTR == out.as_ptr() as usize && PM_LEN == len, "process: exactly one process_mut call, on the whole output buffer");
+        let mut i = 0;
+        while i < 6 {
+            if i < len {
+                vassert!(PM_HEAD[i] == data.buf[i], "process: the output buffer holds a copy of the input when process_mut runs");
+                vassert!(out[i] == !data.buf[i], "process: returns what process_mut produced");
+            } else {
+                vassert!(out[i] == 0x5a, "process: output beyond the slice untouched");
+            }
+            i += 1;
         }
-        i += 1;
     }
-    vassert!(a.off() == b.off() && words_eq(&a.words(), &b.words()), "process leaves the same position as process_mut");
+    #[cfg(not(kani))]
+    {
+        let mut b = C::mk(w, cached, offset);
+        let mut buf = data.buf;
+        b.pm(&mut buf[..len]);
+        assert!(out[..len] == buf[..len], "process: returns what process_mut produced");
+        assert!(a.off() == b.off() && words_eq(&a.words(), &b.words()), "process: exactly one process_mut call, on the whole output buffer");
+    }
 }
 
 pub(crate) fn case_process_len_mismatch<C: Ctx>() {
@@ -400,23 +446,20 @@ pub(crate) fn c03_ctx_update_chachaorig() {
 }
 
 #[cfg_attr(kani, kani::proof)]
-#[cfg_attr(kani, kani::unwind(66))]
-#[doc = "verif-unwindset: ::process_mut$=5, xor_keystream_mut=5"]
-#[cfg_attr(kani, kani::stub(core::arch::x86_64::_mm_add_epi32, crate::verif_lib::mm_add_epi32_model))]
+#[cfg_attr(kani, kani::unwind(10))]
+#[cfg_attr(kani, kani::stub(ChaCha::process_mut, chacha_pm_rec))]
 pub(crate) fn c04_chacha_process_eq() {
     case_process_eq::<ChaCha<2>>();
 }
 #[cfg_attr(kani, kani::proof)]
-#[cfg_attr(kani, kani::unwind(66))]
-#[doc = "verif-unwindset: ::process_mut$=5, xor_keystream_mut=5"]
-#[cfg_attr(kani, kani::stub(core::arch::x86_64::_mm_add_epi32, crate::verif_lib::mm_add_epi32_model))]
+#[cfg_attr(kani, kani::unwind(10))]
+#[cfg_attr(kani, kani::stub(XChaCha::process_mut, xchacha_pm_rec))]
 pub(crate) fn c04_xchacha_process_eq() {
     case_process_eq::<XChaCha<2>>();
 }
 #[cfg_attr(kani, kani::proof)]
-#[cfg_attr(kani, kani::unwind(66))]
-#[doc = "verif-unwindset: ::process_mut$=5, xor_keystream_mut=5"]
-#[cfg_attr(kani, kani::stub(core::arch::x86_64::_mm_add_epi32, crate::verif_lib::mm_add_epi32_model))]
+#[cfg_attr(kani, kani::unwind(10))]
+#[cfg_attr(kani, kani::stub(ChaChaOriginal::process_mut, chachaorig_pm_rec))]
 pub(crate) fn c04_chachaorig_process_eq() {
     case_process_eq::<ChaChaOriginal<2>>();
 }
